@@ -902,7 +902,7 @@ int main(int argc, char** argv)
     for (long i = 0; i < synth; ++i)
     {
         int t = int(i % gen::T_COUNT);
-        if (PROP == "C18" && i % 2 == 0) t = gen::T_EP;
+        if (PROP == "C18") t = (i % 2 == 0) ? int(gen::T_EP) : int((i / 2) % gen::T_COUNT);  // half ep-matrix, the other half cycles through ALL templates
         Board b = gen::synth(rng, t, &rejected);
         rec.count(std::string("synth:") + gen::TEMPLATE_NAME[t]);
         gen::Policy p = pol;
